@@ -355,6 +355,7 @@ class ObjWorld:
         self.objs = []
         self.caches = all_lru_caches(mods)
         self.results = []
+        self.twins = False
 
     def before(self):
         if self.flush:
@@ -382,6 +383,8 @@ def obj_ops_alphabet():
         ("setitem", 0, 2), ("setitem", 4, 2), ("setitem", 3, 2), ("setother", 3, 5), ("setother", 3, 4),
         ("slice", 3, (1, 3)), ("slice", 0, (0, 2)), ("derived", "L", "distance"), ("conv", "L", "llh"),
         ("writeres", 1, "llh"), ("mask", 3, None), ("derived", "L", "zenith_distance"), ("setitem", "L", 3),
+        ("tindex", 6, 1), ("tindex", 6, -1), ("tmax", 6, None), ("tview", 6, 0), ("tview", 6, 2), ("tconv", 6, "tai"),
+        ("tconv", "T", "tai"), ("tconv", "T", "gps"), ("tconv", 7, "tai"), ("tconv", 8, "tai"), ("tfmt", "T", "mjd"), ("tslice", 6, (1, 3)),
     ]
 
 
@@ -397,6 +400,12 @@ def build_objects(mods):
     objs.append(P(palette_xyz(2, (4, 3)), system="trs", other=other))  # 3 with other
     objs.append(other)                                              # 4
     objs.append(P(palette_xyz(9, (4, 3)) * 2.0, system="trs"))       # 5 replacement other
+    jd1 = np.array([2457754.5 - 2 + k for k in range(4)])
+    jd2 = np.array([0.25 + 0.1 * k for k in range(4)])
+    tj = Time(jd1, val2=jd2, fmt="jd", scale="utc")
+    objs.append(tj)                                                  # 6 time array, format jd
+    objs.append(Time(tj.datetime, fmt="datetime", scale="utc"))      # 7 equal epochs, format datetime
+    objs.append(Time(jd1[0], val2=jd2[0], fmt="jd", scale="utc"))    # 8 scalar equal to element 0
     return objs
 
 
@@ -405,12 +414,15 @@ def run_obj_history(w: ObjWorld, ops, rng_state=None):
     w.objs = build_objects(mods)
     obs = []
     last = 3
+    tlast = 6
     tainted = set()
     for op in ops:
         w.before()
         kind, tgt, arg = op
         if tgt == "L":
             tgt = last
+        if tgt == "T":
+            tgt = tlast
         o = w.objs[tgt]
         try:
             if kind == "conv":
@@ -446,6 +458,38 @@ def run_obj_history(w: ObjWorld, ops, rng_state=None):
                 r[...] = 12345.0
                 tainted.add((tgt, arg))
                 obs.append(("wrote",))
+            elif kind in ("tindex", "tmax", "tview", "tconv", "tfmt", "tslice"):
+                if tgt == "T":
+                    tgt = tlast
+                    o = w.objs[tgt]
+                if kind == "tindex":
+                    obs.append(w.observe(o[arg]) if np.ndim(o.jd1) else ("scalar",))
+                elif kind == "tmax":
+                    obs.append(w.observe(o.max) if np.ndim(o.jd1) else ("scalar",))
+                elif kind == "tslice":
+                    if np.ndim(o.jd1):
+                        r = o[arg[0]:arg[1]]
+                        w.objs.append(r)
+                        tlast = len(w.objs) - 1
+                        obs.append(w.observe(r) + (np.shape(r.jd1),))
+                    else:
+                        obs.append(("scalar",))
+                elif kind == "tview":
+                    r = [o.view(), o.T, o.reshape(o.shape), o.ravel() if np.ndim(o) else o.view()][arg % 4] if np.ndim(o) else o.view()
+                    w.objs.append(r)
+                    tlast = len(w.objs) - 1
+                    obs.append(w.observe(r) + (np.shape(r.jd1),))
+                elif kind == "tconv":
+                    r = getattr(o, arg)
+                    obs.append(w.observe(r) + (np.shape(r.jd1), np.asarray(r.jd1, dtype=float).tolist(), np.asarray(r.jd2, dtype=float).tolist()))
+                    # the same conversion of a freshly built time with the same values, format and scale
+                    if w.twins:
+                        twin = type(o)(np.asarray(o).copy() if np.ndim(o) else np.asarray(o).item(), fmt=o.fmt)
+                        rt = getattr(twin, arg)
+                        obs.append(("twin",) + w.observe(rt) + (np.shape(rt.jd1), np.asarray(rt.jd1, dtype=float).tolist()))
+                elif kind == "tfmt":
+                    r = getattr(o, arg)
+                    obs.append(("val", json.dumps(np.asarray(r).tolist()), list(np.shape(r))))
         except Exception as e:
             obs.append(("ERR", type(e).__name__))
     return obs
@@ -505,6 +549,7 @@ def run(ctx: Ctx):
     # ---------------- part B
     alphabet = obj_ops_alphabet()
     nat, ref = ObjWorld(mods, False), ObjWorld(mods, True)
+    nat.twins = ref.twins = True
     LB = 3 if ctx.thorough else 2
     seqs = list(itertools.product(alphabet, repeat=LB))
     if not ctx.thorough:
@@ -517,10 +562,28 @@ def run(ctx: Ctx):
         case = {"object_history": [list(map(str, o)) for o in seq]}
         ctx.case(["B", [list(map(str, o)) for o in seq]], nontrivial=len(seq) > 1)
         ctx.count("B:object-history")
+        # a conversion must equal the conversion of a freshly built equal-valued time (twin entries follow their op)
+        for i in range(len(a) - 1):
+            if isinstance(a[i + 1], tuple) and a[i + 1][:1] == ("twin",):
+                x, y = a[i], a[i + 1][1:]
+                # same type, format, shape of the values and of jd1; values equal up to the rounding of rebuilding the
+                # twin from the (single-float) values
+                same_struct = x[:3] == y[:3] and x[4] == y[4]
+                try:
+                    vx, vy = np.asarray(json.loads(x[3]), dtype=float), np.asarray(json.loads(y[3]), dtype=float)
+                    same_val = vx.shape == vy.shape and bool(np.all(np.abs(vx - vy) <= 1e-6))
+                except (ValueError, TypeError):
+                    same_val = x[3] == y[3]
+                if not (same_struct and same_val):
+                    ctx.violate("depends-on-history:time-conversion",
+                                f"a scale conversion gave {str(a[i])[:150]} but the same conversion of a freshly built equal time gave {str(a[i + 1])[:150]}", case)
+                    break
         if a != b:
             k = next(i for i in range(len(a)) if a[i] != b[i])
-            ctx.violate(f"history-visible:{seq[k][0]}:{seq[k][2] if isinstance(seq[k][2], str) else ''}",
-                        f"step {k} ({seq[k]}) gave {str(a[k])[:120]} naturally but {str(b[k])[:120]} with caches flushed", case)
+            ops_k = [i for i, x in enumerate(a[:k + 1]) if not (isinstance(x, tuple) and x[:1] == ("twin",))]
+            op = seq[len(ops_k) - 1] if ops_k and len(ops_k) <= len(seq) else ("?", "?", "?")
+            ctx.violate(f"history-visible:{op[0]}:{op[2] if isinstance(op[2], str) else ''}",
+                        f"step {len(ops_k) - 1} ({op}) gave {str(a[k])[:120]} naturally but {str(b[k])[:120]} with caches flushed", case)
     ctx.traces = ctx.evaluations
 
 
